@@ -51,6 +51,13 @@ CLAIMED = {
    note='Decomposition, not one semantic postcondition: joins are specified on list contents, selection on MatcherList.matches, so no footprint reasoning over the recursive matcher graph is needed. '
         'Trusted: matcher.parse returns a new graph whose two lists are distinct new lists (precondition of join; C18.1/C05), Matcher.matches interface contract for the element matchers (messages typed as wl.Message), list comprehension = order-preserving filter (engine rule), pyvc + z3.',
    technique='contract-based deductive verification: structural postcondition over list views + defining contract of the selection loop; z3'),
+ 'C05': dict(level='proof', design='6.C05',
+   text='Layer M (proved): every Matcher.matches override is verified against a defining contract taken from the documented meaning - MessagePattern (connection part, then creating / destroying case, else object, name and argument parts all hold), '
+        'ArgsMatcherList (every item satisfied by some argument, no excluded item by any; four nested loops with invariants), MatcherList (some alternative, no exclusion), the argument-value matchers per argument kind, ObjectId / ObjectName / Connection / Arg / Pair matchers; none writes anything or raises. '
+        'Layer P (bounded stand-in, not proof): matcher.parse + simplify is compared with a reference evaluator over generated abstract syntax of the documented grammar, rendered with arbitrary whitespace and redundant brackets, on 160 sample messages; WildcardMatcher and EqMatcher.matches are compared with independent references. '
+        'The stand-in found two genuine defects (bracketed argument name+value rejected; ArgsMatcherList.simplify changing the meaning), both repaired by fix: commits.',
+   note='Bounded: parser layer (6000 generated expressions per quick run, 60000 thorough), regular-expression based WildcardMatcher, EqMatcher over untyped values. Trusted: Matcher.matches interface contract for sub-matchers (pure), field schema. simplify() is covered only through the bounded comparison.',
+   technique='contract-based deductive verification of every matches override (defining contracts, loop invariants); bounded native contract evaluation for the string parser'),
  'C19': dict(level='proof', design='6.C19',
    text='_split_command (real nested loops, inner ones unrolled over the literal marker table): the split is at the first marker word (alias, or single-dash cluster ending in g/r), everything before is ours verbatim, everything after is forwarded verbatim and in order, no marker means no mode; '
         '_strip_dashes removes exactly the leading dashes; _select_mode returns a mode iff exactly one of run/gdb/load/pipe is selected (gdb-plugin aside) and None on conflict or none. '
